@@ -16,6 +16,7 @@ RULE = ("kinds: chunks (n, n_chunks) exhaustive over a grid; pipeline (n<=7, n_c
         "calculate_pairwise_distance_matrix_on_predictions + save + load + concat + to_dense; mse (float vectors, "
         "sigmoid on/off).  Non-trivial: n>=2; distinct by canonical case description.")
 THEOREMS = {
+    "C07_model_is_source_enumeration": "lower_tri n (as integer pairs) is what the whole generator lower_triangular_indices, re-translated from /repo on this run, yields for n >= 0; for n <= 0 it yields nothing",
     "C07_chunks_partition": "concat of all chunks in index order = enumeration of pairs i>j (all n, all n_chunks>=1)",
     "C07_chunks_cover_once": "every pair j<i<n occurs exactly once over all chunks, nothing else occurs",
     "C07_chunks_disjoint": "two different chunk indices share no pair",
